@@ -799,6 +799,18 @@ void t_cxx_dlist_many(Src &s, Case &c)
     ManyMode m;
     run_history<CxxDlistWorld>(s, c, false, "cxx_dlist");
 }
+void t_slist(Src &s, Case &c);
+void t_hlist(Src &s, Case &c);
+void t_slist_many(Src &s, Case &c)
+{
+    ManyMode m;
+    t_slist(s, c);
+}
+void t_hlist_many(Src &s, Case &c)
+{
+    ManyMode m;
+    t_hlist(s, c);
+}
 void t_c_dlist_enum(Src &s, Case &c) { run_history<CDlistWorldF>(s, c, true, "c_dlist"); }
 void t_cxx_dlist_enum(Src &s, Case &c) { run_history<CxxDlistWorld>(s, c, true, "cxx_dlist"); }
 template <int OPS> unsigned __int128 dl_enum_size(int tier)
@@ -822,8 +834,8 @@ typedef igris::slist<SNode, &SNode::lnk> XSlist;
 
 void t_slist(Src &s, Case &c)
 {
-    int nnodes = (int)s.range(1, 10);
-    int nops = (int)s.range(0, 40);
+    int nnodes = g_many ? (int)s.range(258, 300) : (int)s.range(1, 10);
+    int nops = g_many ? nnodes + (int)s.range(0, 200) : (int)s.range(0, 40);
     bool cxx = s.coin();
     c.log("slist(%s) nodes=%d: ", cxx ? "igris::slist" : "C", nnodes);
     std::vector<SNode *> nodes;
@@ -874,6 +886,12 @@ void t_slist(Src &s, Case &c)
     for (int i = 0; i < nops; i++)
     {
         int op = (int)s.below(4), a = (int)s.below((uint64_t)nnodes);
+        if (g_many && i < nnodes - 3)
+        {
+            // prelude of the many-node target: every node is added once, then the random history continues
+            op = op & 1;
+            a = i;
+        }
         if (op <= 1)
         {
             // add a free node at the front (C++: add_first / move_front) or after a linked node (C only)
@@ -927,9 +945,12 @@ void t_slist(Src &s, Case &c)
             nodes[a] = nullptr;
             state[a] = 2;
         }
-        check();
+        if (!g_many || i % 16 == 15 || i + 1 == nops)
+            check();
     }
     c.nontrivial = popped_from_big || (cxx && model.size() >= 3);
+    if (g_many)
+        c.label(model.size() > 255 ? "list_longer_than_255" : "lists_short");
     c.label(cxx ? "igris::slist" : "c_slist");
     for (auto *n : nodes)
         delete n;
@@ -947,8 +968,8 @@ struct HNode
 
 void t_hlist(Src &s, Case &c)
 {
-    int nnodes = (int)s.range(1, 10), nlists = (int)s.range(1, 2);
-    int nops = (int)s.range(0, 40);
+    int nnodes = g_many ? (int)s.range(258, 300) : (int)s.range(1, 10), nlists = (int)s.range(1, 2);
+    int nops = g_many ? nnodes + (int)s.range(0, 200) : (int)s.range(0, 40);
     c.log("hlist nodes=%d lists=%d: ", nnodes, nlists);
     std::vector<HNode *> nodes;
     std::vector<int> state(nnodes, 0); // 0 unhashed, 1 linked, 2 destroyed
@@ -999,6 +1020,12 @@ void t_hlist(Src &s, Case &c)
     for (int i = 0; i < nops; i++)
     {
         int op = (int)s.below(4), a = (int)s.below((uint64_t)nnodes), l = (int)s.below((uint64_t)nlists);
+        if (g_many && i < nnodes - 3)
+        {
+            op = op & 1;
+            a = i;
+            l = 0;
+        }
         if (op == 0 || op == 1)
         {
             if (state[a] != 0)
@@ -1058,9 +1085,12 @@ void t_hlist(Src &s, Case &c)
             nodes[a] = nullptr;
             state[a] = 2;
         }
-        check();
+        if (!g_many || i % 16 == 15 || i + 1 == nops)
+            check();
     }
     c.nontrivial = big;
+    if (g_many)
+        c.label(model[0].size() > 255 ? "list_longer_than_255" : "lists_short");
     for (auto *n : nodes)
         delete n;
 }
@@ -1086,6 +1116,8 @@ VP_TARGET("c_dlist_many", t_c_dlist_many,
           "C dlist with 258..300 nodes on 1..2 lists and 300..800 operations of the same kinds (lists grow past 255 elements): "
           "size, traversals, membership, symmetry checked every 16th step and at the end");
 VP_TARGET("cxx_dlist_many", t_cxx_dlist_many, "igris::dlist with 258..300 nodes on 1..2 lists and 300..800 operations; same checks, every 16th step and at the end");
+VP_TARGET("slist_many", t_slist_many, "C slist / igris::slist with 258..300 nodes: every node added once, then up to 200 random operations; same checks (every 16th step and at the end)");
+VP_TARGET("hlist_many", t_hlist_many, "hlist with 258..300 nodes: every node added once to list 0, then up to 200 random operations; same checks (every 16th step and at the end)");
 VP_TARGET("c_dlist_enum", t_c_dlist_enum, "exhaustive: every history of 3 (quick) / 4 (thorough) operations x 3 nodes x 5 targets over 2 lists (C dlist)",
           dl_enum_size<11>);
 VP_TARGET("cxx_dlist_enum", t_cxx_dlist_enum, "exhaustive: every history of 3 (quick) / 4 (thorough) operations x 3 nodes x 5 targets over 2 lists (igris::dlist)",
